@@ -174,6 +174,8 @@ def as_iter(it, v):
         return CountIt(v[3][0])
     if isinstance(v, tuple) and v[0] == "adt" and v[1].endswith("ops::range::RangeInclusive") and all(isinstance(x, int) for x in v[3][:2]):
         return ListIt(list(range(v[3][0], v[3][1] + 1)))
+    if isinstance(v, tuple) and v[0] == "adt" and v[1].endswith("option::Option"):          # Option as a zero-or-one element iterator
+        return ListIt([A.copy_val(x) for x in v[3][:1]] if v[2] == "Some" else [])
     raise A.Undecided("into_iter on %r" % (v,))
 
 
